@@ -91,6 +91,9 @@ def seed_identity(seed: int) -> None:
         pass
 
 
+_PARENT_FDS: set[int] = set()  # driver-side pipe ends of all live children (a new child must not inherit them)
+
+
 class Child:
     """One simulated process incarnation."""
 
@@ -106,6 +109,11 @@ class Child:
             try:
                 os.close(down_w)
                 os.close(up_r)
+                for fd in _PARENT_FDS:  # pipe ends of sibling incarnations: keeping them open would hide their EOF
+                    try:
+                        os.close(fd)
+                    except OSError:
+                        pass
                 self._serve(down_r, up_w, optable, seed, env or {})
                 code = 0
             except BaseException:  # pylint: disable=broad-except
@@ -117,6 +125,7 @@ class Child:
         self.pid = pid
         self._w = down_w
         self._r = up_r
+        _PARENT_FDS.update((down_w, up_r))
         self.alive = True
 
     def _serve(self, rfd: int, wfd: int, optable: str, seed: int, env: dict) -> None:
@@ -161,6 +170,7 @@ class Child:
         if self.alive:
             self.alive = False
             for fd in (self._w, self._r):
+                _PARENT_FDS.discard(fd)
                 try:
                     os.close(fd)
                 except OSError:
